@@ -41,6 +41,10 @@ type caseT struct {
 	Total    int    `json:"total"`
 	Delay    bool   `json:"delay_points"`
 	Seed     int64  `json:"seed"`
+	// Dialed: the connections are dialed by the engine (DialAsync to a plain listener) while its
+	// poller is held in the callback of a helper dial; each peer sends its first bytes the moment
+	// it has accepted, so that they are there when the poller gets to the connect event
+	Dialed bool `json:"dialed,omitempty"`
 }
 
 func (c caseT) cell() string {
@@ -85,6 +89,10 @@ func genCase(r *h.Run, idx int) caseT {
 	}
 	if c.Pattern == "bytewise" && c.Total > 3000 {
 		c.Total = 500 + rng.Intn(2500)
+	}
+	if c.Net == "tcp" && c.Pattern != "echo" && rng.Intn(5) == 0 {
+		c.Dialed = true
+		c.NPoller = 1
 	}
 	if c.Pattern == "echo" && c.Net != "udp" {
 		// the application answers every chunk with a Write while the peer does not read: a write
@@ -308,17 +316,87 @@ func runCase(r *h.Run, c caseT) {
 		conn  net.Conn
 		total int
 		sent  int64
+		pre   int // bytes already sent as the greeting (dialed cases)
 	}
 	peers := make([]*peerT, c.Conns)
-	for i := range peers {
-		pc, err := net.DialTimeout(c.Net, addr, 5*time.Second)
+	if c.Dialed {
+		ln, err := net.Listen("tcp", "127.0.0.1:0")
 		if err != nil {
-			r.Inconclusive(fmt.Sprintf("case %d: dial: %v", c.Index, err))
+			r.Inconclusive(fmt.Sprintf("case %d: listen: %v", c.Index, err))
 			return
 		}
-		defer pc.Close()
-		peers[i] = &peerT{id: uint32(c.Index*16 + i + 1), conn: pc, total: c.Total + rng.Intn(1+c.Total/4)}
+		defer ln.Close()
+		// the helper dial: its callback holds the (single) poller for a few milliseconds
+		inCb := make(chan struct{})
+		herr := g.DialAsync("tcp", ln.Addr().String(), func(cn *nbio.Conn, err error) {
+			close(inCb)
+			time.Sleep(8 * time.Millisecond)
+		})
+		if herr != nil {
+			r.Inconclusive(fmt.Sprintf("case %d: helper dial: %v", c.Index, herr))
+			return
+		}
+		hc, err := ln.Accept()
+		if err != nil {
+			r.Inconclusive(fmt.Sprintf("case %d: helper accept: %v", c.Index, err))
+			return
+		}
+		defer hc.Close()
+		select {
+		case <-inCb:
+		case <-time.After(5 * time.Second):
+			r.Inconclusive(fmt.Sprintf("case %d: helper dial callback not observed", c.Index))
+			return
+		}
+		for i := range peers {
+			derr := g.DialAsync("tcp", ln.Addr().String(), func(cn *nbio.Conn, err error) {
+				if err == nil {
+					openMu.Lock()
+					opened = append(opened, cn)
+					openMu.Unlock()
+				}
+			})
+			if derr != nil {
+				r.Inconclusive(fmt.Sprintf("case %d: DialAsync: %v", c.Index, derr))
+				return
+			}
+			pc, err := ln.Accept()
+			if err != nil {
+				r.Inconclusive(fmt.Sprintf("case %d: accept: %v", c.Index, err))
+				return
+			}
+			defer pc.Close()
+			p := &peerT{id: uint32(c.Index*16 + i + 1), conn: pc, total: c.Total + rng.Intn(1+c.Total/4)}
+			// the greeting: the first bytes of the stream, written before the poller has seen the connect
+			p.pre = 1 + rng.Intn(200)
+			if p.pre > p.total {
+				p.pre = p.total
+			}
+			if _, err := pc.Write(outb.Payload(p.id, p.total)[:p.pre]); err != nil {
+				r.Inconclusive(fmt.Sprintf("case %d: greeting: %v", c.Index, err))
+				return
+			}
+			atomic.StoreInt64(&p.sent, int64(p.pre))
+			peers[i] = p
+		}
+		r.Count("cases_with_dialed_connections", 1)
+	} else {
+		for i := range peers {
+			pc, err := net.DialTimeout(c.Net, addr, 5*time.Second)
+			if err != nil {
+				r.Inconclusive(fmt.Sprintf("case %d: dial: %v", c.Index, err))
+				return
+			}
+			defer pc.Close()
+			peers[i] = &peerT{id: uint32(c.Index*16 + i + 1), conn: pc, total: c.Total + rng.Intn(1+c.Total/4)}
+		}
 	}
+	var sumPre int64
+	for _, p := range peers {
+		sumPre += int64(p.pre)
+	}
+	var sendersStop int32
+	defer atomic.StoreInt32(&sendersStop, 1)
 	var wg sync.WaitGroup
 	for _, p := range peers {
 		wg.Add(1)
@@ -326,7 +404,18 @@ func runCase(r *h.Run, c caseT) {
 			defer wg.Done()
 			prng := rand.New(rand.NewSource(seed))
 			data := outb.Payload(p.id, p.total)
-			off := 0
+			off := p.pre
+			if p.pre > 0 {
+				// the greeting stays alone until it has been delivered: nothing else may come to the
+				// rescue of a reading event that was lost with the connect event (if it never is
+				// delivered, the quiescence loop below decides the stuck state)
+				for atomic.LoadInt64(&rec.bytes) < sumPre && atomic.LoadInt32(&sendersStop) == 0 {
+					time.Sleep(25 * time.Millisecond) // rarely: the wait must not look like activity to the idle predicate
+				}
+				if atomic.LoadInt32(&sendersStop) != 0 {
+					return
+				}
+			}
 			for off < len(data) {
 				var n int
 				switch c.Pattern {
